@@ -40,6 +40,15 @@ def run(tier):
     rows = [prep(x) for x in read_ndjson(outp)]
     if len(rows) < len(vecs):
         raise ToolError("harness produced fewer records than vectors")
+    # once more with every collection / UDT type described as frozen (bytes and values must be the same)
+    outp2 = os.path.join(wd, "out-frozen.ndjson")
+    run_harness("vh-cql", ["c01", inp, outp2], timeout=1800, env_extra={"VH_FROZEN": "1"})
+    rows2 = [prep(x) for x in read_ndjson(outp2)]
+    if len(rows2) != len(rows):
+        raise ToolError("frozen pass: %d of %d records" % (len(rows2), len(rows)))
+    for x in rows2:
+        x["carrier"] = x["carrier"] + " [types frozen]"
+    rows = rows + rows2
     nchunks = 6
     paths = []
     for c in range(nchunks):
